@@ -88,4 +88,13 @@ def Tree.build (D H bs : Nat) (mode : Bool) (leafIdx : List Nat) : Tree :=
 def Tree.stored (t : Tree) : List (Nat × Nat) :=
   t.pgroups.flatMap fun g => g.flatMap fun l => l.parts.map fun p => (l.idx, p)
 
+/-- `out[index] = value` for every pair, in order, into an array of `n` default entries -/
+def scatterByIndex {α : Type} (n : Nat) (dflt : α) (xs : List (Nat × α)) : List α :=
+  (xs.foldl (fun (a : Array α) (x : Nat × α) => a.setIfInBounds x.1 x.2) (Array.replicate n dflt)).toList
+
+/-- `TbfTree::getAllParticlesData / getAllParticlesRhs` (and the gather of `rebuild`): walk the particles in the
+    tree's storage order; `vals p` is what is stored for the particle whose original index is `p` -/
+def Tree.exportBy {α : Type} (t : Tree) (dflt : α) (vals : Nat → α) (n : Nat) : List α :=
+  scatterByIndex n dflt (t.stored.map fun x => (x.2, vals x.2))
+
 end Tbfmm
